@@ -139,7 +139,8 @@ pub fn drive_hostile(t: &mut Tracer, rq: RqCfg, stream: &[u8], arrivals: &[usize
                     t.ev(json!({"ev":"panic","during":"is_chunked"}));
                     return;
                 }
-                let r1 = if chunked == Some(true) { guarded(|| f.write(b"ab", &mut buf)).map(|_| ()) } else { Some(()) };
+                // (the length-delimited request bodies of this driver are two bytes long)
+                let r1 = guarded(|| f.write(b"ab", &mut buf)).map(|_| ());
                 let r2 = guarded(|| f.write(&[], &mut buf));
                 if r1.is_none() || r2.is_none() {
                     t.ev(json!({"ev":"panic","during":"body write"}));
@@ -323,6 +324,7 @@ fn rq_for(tag: &str) -> RqCfg {
         "post10-close-expect" => RqCfg { method: "POST".into(), ver10: true, expect: true, connclose: true, ..base },
         "post-expect-giveup" => RqCfg { method: "POST".into(), expect: true, ..base },
         "get10-close" => RqCfg { method: "GET".into(), ver10: true, connclose: true, ..base },
+        "post-login" => RqCfg { method: "POST".into(), framing: "cl2".into(), ..base },
         "connect" => RqCfg { method: "CONNECT".into(), ..base },
         "put-cl" => RqCfg { method: "PUT".into(), framing: "cl2".into(), ..base },
         _ => base,
@@ -499,8 +501,9 @@ pub fn c12(o: &Opts, t: &mut Tracer) -> Value {
                 let outs: Vec<usize> = (0..3).map(|_| [0usize, 1, 2, 7, 64, 100000, 3, 10][rng.gen_range(0..8)]).collect();
                 let outs = if outs.iter().all(|&x| x == 0) { vec![0, 9] } else { outs };
                 // also try the exchange against other request configurations
-                let tag2 = if rep >= 2 { ["get", "head", "post-expect", "connect", "post10-close-expect", "put-cl", "post-expect-giveup", "get10-close"][rng.gen_range(0..8)] } else { tag };
+                let tag2 = if rep >= 2 { ["get", "head", "post-expect", "connect", "post10-close-expect", "put-cl", "post-expect-giveup", "get10-close", "post-login"][rng.gen_range(0..9)] } else { tag };
                 GIVE_UP.with(|g| g.set(tag2 == "post-expect-giveup"));
+                crate::flowbox::LOGIN_HEADERS.with(|g| g.set(tag2 == "post-login"));
                 STOP_AT_CHUNKS.with(|g| g.set(rep % 2 == 1));
                 drive_hostile(t, rq_for(tag2), &stream, &arrivals, &outs);
                 if rep == 1 && stream.len() < 400 && f["segs"].to_string().contains("\"size\"") {
@@ -510,6 +513,7 @@ pub fn c12(o: &Opts, t: &mut Tracer) -> Value {
                     drive_hostile(t, rq_for(tag2), &stream, &arrivals, &[10, 3]);
                 }
                 GIVE_UP.with(|g| g.set(false));
+                crate::flowbox::LOGIN_HEADERS.with(|g| g.set(false));
                 STOP_AT_CHUNKS.with(|g| g.set(false));
             }
         }
